@@ -114,7 +114,11 @@ func (c Codec) gorumsUnmarshal(b []byte, msg *Message) (err error) {
 	if err != nil {
 		return err
 	}
-	methodDesc := desc.(protoreflect.MethodDescriptor)
+	methodDesc, ok := desc.(protoreflect.MethodDescriptor)
+	if !ok {
+		// the name resolves to a message, service, enum, ... but not to a method
+		return fmt.Errorf("gorums: '%s' is not a method", msg.Metadata.Method)
+	}
 
 	// get message name depending on whether we are creating a request or response message
 	var messageName protoreflect.FullName
